@@ -40,6 +40,9 @@ Errors(r) ==
             q \in {q \in Queries : ~Same(Query(img, q), r.obs[q])}}
          \cup {<<"StringMismatch", i, ToString(FindString(img, i, 255)), ToString(r.obs[StrName(i)])>> :
                  i \in {i \in StringIdx : Judged(img, i) /\ ~Same(FindString(img, i, 255), r.obs[StrName(i)])}}
+         \* a well-formed device whose name fits the MainDevice's container initialises
+         \cup (IF r.init_result # "ok" /\ Name(img).k \in {"Some", "None"}
+               THEN {<<"InitFailedOnWellFormedDevice", r.init_result>>} ELSE {})
          \* (a device without a name is given a made-up one from its identity: not compared)
          \cup (IF r.sub.present /\ Name(img).k = "Some" /\ r.sub.name # Name(img).v
                THEN {<<"SubDeviceName", ToString(r.sub.name)>>} ELSE {})
